@@ -219,7 +219,19 @@ func (e *c18Env) apply(s *c18Stores, op c18Op) error {
 		if err := s.ss.SaveABCIResponses(h, rec.resps); err != nil {
 			return err
 		}
-		return s.ss.Save(rec.state)
+		// the node computes the next state from the state it LOADED (updateState carries the two "last changed" heights over
+		// unless the block changes them), not from a state it remembered: what Load returns flows into what is saved next
+		ns := rec.state.Copy()
+		if st, err := s.ss.Load(); err == nil && !st.IsEmpty() && st.LastBlockHeight == h-1 && c18Rel(h) >= 2 {
+			prev := e.chain[c18Rel(h)-2].state
+			if ns.LastHeightValidatorsChanged == prev.LastHeightValidatorsChanged {
+				ns.LastHeightValidatorsChanged = st.LastHeightValidatorsChanged
+			}
+			if ns.LastHeightConsensusParamsChanged == prev.LastHeightConsensusParamsChanged {
+				ns.LastHeightConsensusParamsChanged = st.LastHeightConsensusParamsChanged
+			}
+		}
+		return s.ss.Save(ns)
 	case "prune":
 		base, to := s.bs.Base(), c18Abs(op.To) // op.To is relative to the first block
 		if to <= base || to > s.bs.Height() {
